@@ -539,6 +539,26 @@ func propC07(w *World, r *Report) {
 			r.Check(a.Frame == ssa.Value(kk.fn.Params[3]), "K2", kk.fn.Name()+": result goes to the third frame argument at the same position", w.InstrPos(a.Instr), frameName(e, a.Frame))
 		}
 	}
+	// the clamp value with a fixed threshold is the configured temp-thresh, unmodified
+	{
+		init := "<unset>"
+		fi := d.Role["tempThresh"]
+		// value stored by the constructor (directly or through a call)
+		ce := newTermEnv(w)
+		for _, b := range d.Ctor.Blocks {
+			for _, in := range b.Instrs {
+				if st, ok := in.(*ssa.Store); ok {
+					if fa, ok := st.Addr.(*ssa.FieldAddr); ok && isPtrTo(fa.X.Type(), d.T) && fa.Field == fi {
+						init = ce.termOf(st.Val).String()
+					}
+				}
+				if c, ok := in.(*ssa.Call); ok && c.Call.StaticCallee() == k.calcThresh {
+					init = "computed by " + k.calcThresh.Name() + "(" + ce.termOf(c.Call.Args[1]).String() + ") — subject to the dynamic min/max limits"
+				}
+			}
+		}
+		r.Check(init == "config.ThermalMotion.TempThresh"+cfgMotion, "K2", "the threshold both values are raised to starts as the configured temp-thresh, unmodified", w.Pos(d.Ctor.Pos()), init)
+	}
 	// signed intermediate
 	for _, fn := range d.Funcs {
 		for _, b := range fn.Blocks {
